@@ -5,7 +5,8 @@
 From Coq Require Import NArith ZArith List Bool Lia.
 Import ListNotations.
 From Mds Require Import Mdiff.ReaderModel Mdiff.FormatSpec Mdiff.FormatProofs Mdiff.ReaderNormalProofs
-  Mdiff.ApplySpec Mdiff.ApplyNormalProofs.
+  Mdiff.ReaderUnifiedProofs Mdiff.ApplySpec Mdiff.ApplyNormalProofs.
+From Mds Require Import Gen.MdiffSpan.
 Local Open Scope Z_scope.
 
 Definition t_drop : bytes := [45; 32]%N.
@@ -219,15 +220,15 @@ Lemma cchunk_lines_marks c :
   :: map rline (old_sec_of (edits c))
   ++ (s_mmm ++ dspan (RStart c) (REnd c) ++ s_4dashes) :: map rline (new_sec_of (edits c)).
 Proof.
-  unfold cchunk_lines, old_sec_of, new_sec_of. cbn [app]. f_equal. f_equal.
+  unfold cchunk_lines, old_sec_of, new_sec_of, context_old_lo, context_old_hi, context_new_lo, context_new_hi. cbn [app]. f_equal. f_equal.
   rewrite old_lines_marks, new_lines_marks.
   destruct (has_relevant_edits (edits c) Drop); destruct (has_relevant_edits (edits c) Copy); reflexivity.
 Qed.
 
-Lemma apply_cchunks_chunks cs : forall lpos rpos l r,
+Lemma apply_cchunks_chunks strict cs : forall lpos rpos l r,
   chunks_from lpos rpos l r cs -> context_ok cs ->
   forall fuel, (fuel > length (flat_map cchunk_lines cs))%nat ->
-  apply_cchunks fuel (flat_map cchunk_lines cs) (lpos - 1) l = Some r.
+  apply_cchunks strict fuel (flat_map cchunk_lines cs) (lpos - 1) (rpos - 1) l = Some r.
 Proof.
   intros lpos rpos l r H.
   induction H as [lpos rpos g0 | lpos rpos g0 c cs l r HL HR HLe HRe Hcf IH]; intros Hok fuel Hfuel.
@@ -253,6 +254,7 @@ Proof.
     2:{ cbn [app]. unfold is_new_range. unfold has_prefix. rewrite cut_prefix_app.
         rewrite app_assoc, has_suffix_app. reflexivity. }
     cbn [app].
+    rewrite middle_app by reflexivity. rewrite parse_range_dspan.
     rewrite (take_section_marks (fun l => bytes_eqb l s_stars15) new_sec rest);
       [|exact Hno | apply not_stars | apply cchunks_stop].
     destruct (sections_of_chunk (edits c) Hes Hrel) as [Eold Enew].
@@ -269,6 +271,21 @@ Proof.
       unfold n in HLe. rewrite llen_nil in HLe.
       replace (LEnd c - 1 <? LStart c) with true by (symmetry; apply Z.ltb_lt; lia). reflexivity. }
     rewrite Efirst.
+    pose proof (llen_nonneg (produced (edits c))) as Hp.
+    set (m := llen (produced (edits c))) in *.
+    assert (Enfirst : (if is_nil (produced (edits c))
+                      then (if REnd c - 1 <? RStart c then RStart c - 1 else RStart c)
+                      else RStart c - 1) = RStart c - 1).
+    { destruct (produced (edits c)) eqn:E; [|reflexivity]. cbn [is_nil].
+      unfold m in HRe. rewrite llen_nil in HRe.
+      replace (REnd c - 1 <? RStart c) with true by (symmetry; apply Z.ltb_lt; lia). reflexivity. }
+    rewrite Enfirst.
+    replace (strict && (negb (LEnd c - 1 - (LStart c - 1) =? n) || negb (REnd c - 1 - (RStart c - 1) =? m)
+                        || negb (RStart c - 1 =? rpos - 1 + (LStart c - 1 - (lpos - 1))))) with false.
+    2:{ replace (LEnd c - 1 - (LStart c - 1) =? n) with true by (symmetry; apply Z.eqb_eq; lia).
+        replace (REnd c - 1 - (RStart c - 1) =? m) with true by (symmetry; apply Z.eqb_eq; lia).
+        replace (RStart c - 1 =? rpos - 1 + (LStart c - 1 - (lpos - 1))) with true by (symmetry; apply Z.eqb_eq; lia).
+        cbn [negb orb]. symmetry. apply andb_false_r. }
     replace (LStart c - 1 <? lpos - 1) with false by (symmetry; apply Z.ltb_ge; lia).
     replace (llen (g0 ++ consumed (edits c) ++ l) <? LStart c - 1 - (lpos - 1) + n) with false
       by (symmetry; apply Z.ltb_ge; rewrite !llen_app; fold n; lia).
@@ -279,6 +296,7 @@ Proof.
     replace (drop_z (LStart c - 1 - (lpos - 1) + n) (g0 ++ consumed (edits c) ++ l)) with l
       by (rewrite app_assoc; symmetry; apply drop_z_app; rewrite llen_app; fold n; lia).
     replace (LStart c - 1 + n) with (LEnd c - 1) by lia.
+    replace (rpos - 1 + (LStart c - 1 - (lpos - 1)) + m) with (REnd c - 1) by lia.
     unfold rest. rewrite (IH Hok' f Hf). reflexivity.
 Qed.
 
@@ -287,18 +305,22 @@ Section AnyTime.
   Variable time_is_zero : time -> bool.
   Variable format_time : time -> bytes.
 
-  Theorem apply_context_lines L R cs :
-    patch_ok L R cs -> context_ok cs ->
-    apply_context L (context_lines time_is_zero format_time None cs) = Some R.
+  (* the file header (two lines, "*** ..." and "--- ...") is skipped whatever the names are *)
+  Lemma skip_cheader_context fi cs :
+    skip_cheader (context_lines time_is_zero format_time fi cs) = flat_map cchunk_lines cs.
   Proof.
-    intros H Hok. unfold apply_context, context_lines.
-    assert (E : match cs with [] => [] | _ :: _ => context_header time_is_zero format_time None ++ flat_map cchunk_lines cs end
-                = flat_map cchunk_lines cs) by (destruct cs; reflexivity).
-    rewrite E.
-    assert (Es : skip_cheader (flat_map cchunk_lines cs) = flat_map cchunk_lines cs)
-      by (destruct cs; reflexivity).
-    rewrite Es.
-    apply (apply_cchunks_chunks cs 1 1 L R H Hok). lia.
+    unfold context_lines. destruct cs as [|c cs]; [reflexivity|].
+    destruct fi as [f|]; [|reflexivity].
+    unfold context_header, file_header. cbn [app skip_cheader].
+    unfold has_prefix. rewrite !cut_prefix_app. reflexivity.
+  Qed.
+
+  Theorem apply_context_lines strict fi L R cs :
+    patch_ok L R cs -> context_ok cs ->
+    apply_context_gen strict L (context_lines time_is_zero format_time fi cs) = Some R.
+  Proof.
+    intros H Hok. unfold apply_context_gen. rewrite skip_cheader_context.
+    apply (apply_cchunks_chunks strict cs 1 1 L R H Hok). lia.
   Qed.
 
   Lemma marks_lines_nf ms :
@@ -313,13 +335,13 @@ Section AnyTime.
 
   Lemma consumed_nf es : Forall edit_lines_nf es -> Forall newline_free (consumed es).
   Proof.
-    induction 1 as [|e es (Hx & Hy) _ IH]; [constructor|]. rewrite consumed_cons.
-    apply Forall_app. split; [destruct (eop e); first [exact Hx | constructor] | exact IH].
+    induction 1 as [|e es He _ IH]; [constructor|]. rewrite consumed_cons. unfold edit_lines_nf in He.
+    apply Forall_app. split; [destruct (eop e); first [exact He | exact (proj1 He) | constructor] | exact IH].
   Qed.
   Lemma produced_nf es : Forall edit_lines_nf es -> Forall newline_free (produced es).
   Proof.
-    induction 1 as [|e es (Hx & Hy) _ IH]; [constructor|]. rewrite produced_cons.
-    apply Forall_app. split; [destruct (eop e); first [exact Hx | exact Hy | constructor] | exact IH].
+    induction 1 as [|e es He _ IH]; [constructor|]. rewrite produced_cons. unfold edit_lines_nf in He.
+    apply Forall_app. split; [destruct (eop e); first [exact He | exact (proj2 He) | constructor] | exact IH].
   Qed.
 
   Lemma cchunk_lines_nf c : chunk_lines_nf c -> Forall newline_free (cchunk_lines c).
@@ -345,15 +367,38 @@ Section AnyTime.
         rewrite sec_text_new. apply produced_nf. exact Hc.
   Qed.
 
-  Theorem apply_context_text L R cs :
-    patch_ok L R cs -> context_ok cs -> lines_nf cs ->
-    apply_context L (split_lines (context time_is_zero format_time None cs)) = Some R.
+  Hypothesis format_nf : forall t, newline_free (format_time t).
+
+  Lemma context_lines_nf fi cs :
+    lines_nf cs -> info_ok time fi -> Forall newline_free (context_lines time_is_zero format_time fi cs).
   Proof.
-    intros H Hok Hnf. unfold context.
-    rewrite split_join_lines; [apply apply_context_lines; assumption|].
-    unfold context_lines. destruct cs as [|c cs]; [constructor|].
-    cbn [context_header app]. set (all := c :: cs) in *. clearbody all. clear H Hok.
-    induction Hnf as [|c' cs' Hc _ IH]; [constructor|].
-    cbn [flat_map]. apply Forall_app. split; [apply cchunk_lines_nf; exact Hc | exact IH].
+    intros Hnf Hfi. unfold context_lines. destruct cs as [|c cs]; [constructor|].
+    apply Forall_app. split.
+    - destruct fi as [f|]; [|constructor]. destruct Hfi as [[_ Hl] [_ Hr]].
+      assert (Hh : forall p n d ts, newline_free p -> newline_free n -> newline_free d ->
+                     newline_free (file_header time_is_zero format_time p (name_or n d) ts)).
+      { intros p n d ts Hp Hn Hd. unfold file_header. apply nf_app; [exact Hp|].
+        apply nf_app; [unfold name_or; destruct n; assumption|].
+        destruct (time_is_zero ts); [intros []|]. apply nf_cons; [discriminate | apply format_nf]. }
+      unfold context_header.
+      constructor; [|constructor; [|constructor]]; apply Hh; try assumption;
+        unfold newline_free; cbn; intuition discriminate.
+    - set (all := c :: cs) in *. clearbody all.
+      induction Hnf as [|c' cs' Hc _ IH]; [constructor|].
+      cbn [flat_map]. apply Forall_app. split; [apply cchunk_lines_nf; exact Hc | exact IH].
   Qed.
+
+  Theorem apply_context_text_gen strict fi L R cs :
+    patch_ok L R cs -> context_ok cs -> lines_nf cs -> info_ok time fi ->
+    apply_context_gen strict L (split_lines (context time_is_zero format_time fi cs)) = Some R.
+  Proof.
+    intros H Hok Hnf Hfi. unfold context.
+    rewrite split_join_lines by (apply context_lines_nf; assumption).
+    apply apply_context_lines; assumption.
+  Qed.
+
+  Theorem apply_context_text fi L R cs :
+    patch_ok L R cs -> context_ok cs -> lines_nf cs -> info_ok time fi ->
+    apply_context L (split_lines (context time_is_zero format_time fi cs)) = Some R.
+  Proof. apply apply_context_text_gen. Qed.
 End AnyTime.
